@@ -237,6 +237,9 @@ impl WorkerPool {
         matcher: Option<&SignatureMatcher>,
         filter: Option<&FilterConfig>,
     ) -> Result<HttpAnalysisResult, HuginnNetHttpError> {
+        #[cfg(huginn_net_verif)]
+        crate::verif_hooks::worker_packet(packet);
+
         if let Some(filter_cfg) = filter {
             if !raw_filter::apply(packet, filter_cfg) {
                 debug!("Filtered out packet before parsing");
@@ -264,6 +267,9 @@ impl WorkerPool {
             self.dropped_count.fetch_add(1, Ordering::Relaxed);
             return DispatchResult::Dropped;
         }
+
+        #[cfg(huginn_net_verif)]
+        crate::verif_hooks::perturb(0);
 
         let worker_id = packet_hash::hash_flow(&packet, self.num_workers);
 
